@@ -52,7 +52,7 @@ run_export(int f, const vset_t *sa) {
 	for (i = 0; i < sa->n; i ++) {
 		vs_get(sa, i, &av);
 		for (ca = cap_min(a); ca <= MAXCAP; ca += (MAXCAP - cap_min(a)) ? (MAXCAP - cap_min(a)) : 1) {
-			if (!vh_begin(exp_name[f])) continue;
+			if (!begin_case(exp_name[f])) continue;
 			d_op = exp_name[f]; d_a = av; d_cap = ca; d_set = "every buffer size 0..capacity+1, AUTO_SIZE on/off";
 			vh_publish_desc();
 			maxsz = ca * DSZ * (hex ? 2 : 1) + 1;
@@ -108,7 +108,7 @@ run_import(int f, const vset_t *sa) {
 	for (i = 0; i < sa->n; i ++) {
 		vs_get(sa, i, &av);
 		for (ca = 1; ca <= MAXCAP; ca ++) {	/* capacity independent of the value: too large a value must be refused */
-			if (!vh_begin(imp_name[f])) continue;
+			if (!begin_case(imp_name[f])) continue;
 			d_op = imp_name[f]; d_a = av; d_cap = ca; d_set = "every encoding length 0..capacity+1 bytes";
 			vh_publish_desc();
 			for (units = 0; units <= ca * DSZ + 1; units ++) {
@@ -173,7 +173,7 @@ run_naf(const vset_t *sa) {
 	for (i = 0; i < sa->n; i ++) {
 		vs_get(sa, i, &av);
 		ca = (i & 1) ? MAXCAP : cap_min(a);
-		if (!vh_begin("bn_calc_naf")) continue;
+		if (!begin_case("bn_calc_naf")) continue;
 		d_op = "bn_calc_naf"; d_a = av; d_cap = ca; d_set = "w=2..6, array sizes bits..bits+2";
 		vh_publish_desc();
 		for (w = 2; w <= 6; w ++) for (ds = 0; ds < 3; ds ++) {
@@ -227,7 +227,7 @@ run_jsf(const vset_t *sa, const vset_t *sb) {
 
 	for (i = 0; i < sa->n; i ++) {
 		vs_get(sa, i, &av);
-		if (!vh_begin("bn_calc_jsf")) continue;
+		if (!begin_case("bn_calc_jsf")) continue;
 		d_op = "bn_calc_jsf"; d_a = av; d_cap = cap_min(a); d_set = vs_name(sb);
 		vh_publish_desc();
 		for (j = 0; j < sb->n; j ++) {
